@@ -193,26 +193,51 @@ fn type_class<I: ScanInt>() -> &'static str {
 /// One scanner call on a fresh reader: `buffered` bytes are in the buffer when the scanner is
 /// called; the rest arrives at once or byte-wise.
 pub fn run_case<I: ScanInt>(s: &[u8], offset: usize, scanner: Scanner, buffered: usize, rest_bytewise: bool) -> Vec<(String, String)> {
-    let describe = || (format!("digits/{}/{}", scanner.name(), type_class::<I>()), format!("{}::<{}>({:?}, offset {offset}) with {buffered} bytes buffered", scanner.name(), I::NAME, show(s)), replay_value::<I>(s, offset, scanner, buffered, rest_bytewise));
+    run_case_in::<I>(s, offset, scanner, buffered, rest_bytewise, false)
+}
+
+/// Number of stale bytes in front of the text in the `stale` variant (three chunks of 8).
+const STALE_PREFIX: usize = 24;
+
+/// `stale`: the text is preceded by 24 digits '9' that are consumed chunk by chunk (chunk size 8)
+/// so that the refill delivering the first `buffered` bytes of the text realigns the buffer: the
+/// bytes right behind the valid window are then stale digits, not zeros. A scanner that loads
+/// beyond the buffered data (C14) returns a value that depends on them.
+pub fn run_case_in<I: ScanInt>(s: &[u8], offset: usize, scanner: Scanner, buffered: usize, rest_bytewise: bool, stale: bool) -> Vec<(String, String)> {
+    let describe = || (format!("digits/{}/{}", scanner.name(), type_class::<I>()), format!("{}::<{}>({:?}, offset {offset}) with {buffered} bytes buffered{}", scanner.name(), I::NAME, show(s), if stale { " (stale digits behind the window)" } else { "" }), replay_value::<I>(s, offset, scanner, buffered, rest_bytewise, stale));
     let _guard = mc_core::abortguard::enter(&describe);
     let mut problems = Vec::new();
     let b = buffered.min(s.len());
-    let grain = if rest_bytewise {
-        let mut script = vec![];
-        if b > 0 {
-            script.push(Ans::Deliver(b));
-        }
+    let mut script = vec![];
+    if stale {
+        script.extend([Ans::Deliver(8), Ans::Deliver(8), Ans::Deliver(8)]);
+    }
+    if b > 0 {
+        script.push(Ans::Deliver(b));
+    }
+    if rest_bytewise {
         script.extend(std::iter::repeat(Ans::Deliver(1)).take(s.len() + 2));
-        Grain::Script(script)
-    } else if b > 0 {
-        Grain::Script(vec![Ans::Deliver(b)])
-    } else {
-        Grain::OneShot
-    };
-    let (source, st) = ScriptedSource::new(SourceCfg::new(s, grain), vec![]);
+    }
+    let grain = if script.is_empty() { Grain::OneShot } else { Grain::Script(script) };
+    let mut stream = Vec::new();
+    if stale {
+        stream.extend_from_slice(&[b'9'; STALE_PREFIX]);
+    }
+    stream.extend_from_slice(s);
+    let base = if stale { STALE_PREFIX } else { 0 };
+    let (source, st) = ScriptedSource::new(SourceCfg::new(&stream, grain), vec![]);
     let res = catch(|| {
         let mut reader = DeferredReader::from_read(source);
-        if b > 0 {
+        if stale {
+            reader.set_chunk_size(8);
+            for _ in 0..3 {
+                reader.request(8);
+                reader.advance(8);
+            }
+            if b > 0 {
+                reader.request_more();
+            }
+        } else if b > 0 {
             reader.request(b);
         }
         let pre = reader.buf_len();
@@ -224,11 +249,11 @@ pub fn run_case<I: ScanInt>(s: &[u8], offset: usize, scanner: Scanner, buffered:
             if pre != b {
                 problems.push(("harness".into(), format!("harness could not buffer exactly {b} bytes (got {pre})")));
             }
-            if position != 0 {
+            if position != base {
                 problems.push(("consumed".into(), format!("scanner moved the cursor to {position}")));
             }
             let pos = st.borrow().pos;
-            if buf[..] != s[..pos] {
+            if buf[..] != stream[base..pos] {
                 problems.push(("buffer".into(), format!("buffered data {:?} is not the delivered prefix", show(&buf))));
             }
             Ok(r)
@@ -241,10 +266,10 @@ pub fn run_case<I: ScanInt>(s: &[u8], offset: usize, scanner: Scanner, buffered:
     problems
 }
 
-fn replay_value<I: ScanInt>(s: &[u8], offset: usize, scanner: Scanner, buffered: usize, rest_bytewise: bool) -> Value {
+fn replay_value<I: ScanInt>(s: &[u8], offset: usize, scanner: Scanner, buffered: usize, rest_bytewise: bool, stale: bool) -> Value {
     json!({
         "property": "C13", "family": "case", "type": I::NAME, "scanner": scanner.name(), "input_hex": hex(s), "input": show(s),
-        "offset": offset, "buffered": buffered, "rest_bytewise": rest_bytewise,
+        "offset": offset, "buffered": buffered, "rest_bytewise": rest_bytewise, "stale": stale,
     })
 }
 
@@ -258,9 +283,25 @@ fn check_case<I: ScanInt>(s: &[u8], offset: usize, buffered: usize, rest_bytewis
             report.violation(
                 format!("digits/{}/{}/{}", scanner.name(), type_class::<I>(), kind),
                 format!("{}::<{}>({:?}, offset {offset}) with {buffered} bytes buffered, rest {}: {what}", scanner.name(), I::NAME, show(s), if rest_bytewise { "byte-wise" } else { "at once" }),
-                replay_value::<I>(s, offset, scanner, buffered, rest_bytewise),
+                replay_value::<I>(s, offset, scanner, buffered, rest_bytewise, false),
                 (s.len() * 64 + buffered) as u64,
             );
+        }
+        // the same case with stale digits right behind the buffered window (1..=8 bytes buffered:
+        // the first refill of the text is a single chunk of 8)
+        if (1..=8).contains(&buffered) && buffered <= s.len() {
+            let stale = run_case_in::<I>(s, offset, scanner, buffered, rest_bytewise, true);
+            report.evaluations += 1;
+            report.transitions += 1;
+            report.count("cases_with_stale_digits_behind_the_window", 1);
+            for (kind, what) in &stale {
+                report.violation(
+                    format!("digits/{}/{}/stale-{}", scanner.name(), type_class::<I>(), kind),
+                    format!("{}::<{}>({:?}, offset {offset}) with {buffered} bytes buffered and stale digits behind them, rest {}: {what}", scanner.name(), I::NAME, show(s), if rest_bytewise { "byte-wise" } else { "at once" }),
+                    replay_value::<I>(s, offset, scanner, buffered, rest_bytewise, true),
+                    (s.len() * 64 + buffered) as u64,
+                );
+            }
         }
         results.push(problems);
     }
@@ -373,22 +414,32 @@ fn w_family<I: ScanInt>(tier: Tier, budget: &Budget, report: &mut Report) {
 fn extreme_offsets<I: ScanInt>(report: &mut Report) {
     let texts: [&[u8]; 3] = [b"", b"12345678", b"-12345678 12345678 12345678"];
     for t in texts {
-        for offset in [usize::MAX, usize::MAX - 1, usize::MAX - 7, usize::MAX - 8, usize::MAX - 16, usize::MAX / 2 + 1, 1 << 40] {
-            for consumed in [0usize, 8] {
+        // far beyond any input, and just behind the end of the buffered data
+        let mut offsets = vec![usize::MAX, usize::MAX - 1, usize::MAX - 7, usize::MAX - 8, usize::MAX - 16, usize::MAX / 2 + 1, 1 << 40];
+        for d in [1usize, 2, 7, 8, 9, 16, 17] {
+            offsets.push(t.len() + d);
+            offsets.push(t.len().saturating_sub(8) + d);
+        }
+        offsets.retain(|&o| o > t.len());
+        offsets.sort();
+        offsets.dedup();
+        for offset in offsets {
+            // (bytes advanced over, has the reader already seen the end of the input?)
+            for (consumed, at_end) in [(0usize, false), (8, false), (0, true), (8, true), (3, true)] {
                 for scanner in Scanner::ALL {
                     report.evaluations += 1;
                     report.transitions += 1;
                     let describe = || {
                         (
                             format!("digits/{}/extreme-offset", scanner.name()),
-                            format!("{}::<{}>({:?} with {consumed} bytes advanced over, offset {offset})", scanner.name(), I::NAME, show(t)),
-                            json!({"property": "C13", "family": "extreme", "type": I::NAME, "scanner": scanner.name(), "input_hex": hex(t), "input": show(t), "offset": offset.to_string(), "consumed": consumed}),
+                            format!("{}::<{}>({:?} with {consumed} bytes advanced over, end seen {at_end}, offset {offset})", scanner.name(), I::NAME, show(t)),
+                            json!({"property": "C13", "family": "extreme", "type": I::NAME, "scanner": scanner.name(), "input_hex": hex(t), "input": show(t), "offset": offset.to_string(), "consumed": consumed, "at_end": at_end}),
                         )
                     };
                     let _guard = mc_core::abortguard::enter(&describe);
                     let res = catch(|| {
                         let mut reader = DeferredReader::from_read(t);
-                        reader.request(t.len());
+                        reader.request(t.len() + at_end as usize);
                         let c = consumed.min(reader.buf_len());
                         reader.advance(c);
                         scanner.call::<I>(&mut reader, offset)
@@ -401,12 +452,82 @@ fn extreme_offsets<I: ScanInt>(report: &mut Report) {
                     report.outcome(format!("extreme:{}", problem.is_none()));
                     if let Some((kind, what)) = problem {
                         let key = format!("digits/{}/extreme-offset/{}", scanner.name(), kind);
-                        report.violation_with(&key, t.len() as u64, || (format!("{}::<{}>({:?} with {consumed} bytes advanced over, offset {offset}): {what}", scanner.name(), I::NAME, show(t)), json!({"property": "C13", "family": "extreme", "type": I::NAME, "scanner": scanner.name(), "input_hex": hex(t), "input": show(t), "offset": offset.to_string(), "consumed": consumed})));
+                        report.violation_with(&key, t.len() as u64, || (format!("{}::<{}>({:?} with {consumed} bytes advanced over, end seen {at_end}, offset {offset}): {what}", scanner.name(), I::NAME, show(t)), json!({"property": "C13", "family": "extreme", "type": I::NAME, "scanner": scanner.name(), "input_hex": hex(t), "input": show(t), "offset": offset.to_string(), "consumed": consumed, "at_end": at_end})));
                     }
                 }
             }
         }
     }
+}
+
+/// C14 part: raw 8-byte loads of the digit scanners must stay inside the buffered data. Every
+/// string of length <= 5 (quick) / 6 (thorough) over {-,0,1,9,x}, every start offset, 1..=8 bytes
+/// buffered with STALE DIGITS right behind the buffered window, rest at once and byte-wise, all
+/// four scanners, three integer types: the result must be the reference result for the text alone.
+pub fn stale_window_family(tier: Tier, report: &mut Report) {
+    fn go<I: ScanInt>(strings: &[Vec<u8>], report: &mut Report) {
+        let total = mc_core::par::par_fold(
+            strings.len(),
+            mc_core::threads(),
+            Report::new,
+            |acc, i| {
+                let s = &strings[i];
+                acc.states += 1;
+                for offset in 0..=s.len() {
+                    for b in 1..=s.len().min(8) {
+                        for bytewise in [false, true] {
+                            for scanner in Scanner::ALL {
+                                let problems = run_case_in::<I>(s, offset, scanner, b, bytewise, true);
+                                acc.evaluations += 1;
+                                acc.transitions += 1;
+                                acc.nontrivial += 1;
+                                acc.outcome(format!("stale-window:{}:{}", scanner.name(), problems.len()));
+                                for (kind, what) in &problems {
+                                    acc.violation(
+                                        format!("digits/{}/load-beyond-window/{}", scanner.name(), kind),
+                                        format!("{}::<{}>({:?}, offset {offset}) with {b} bytes buffered and stale digits behind them, rest {}: {what}", scanner.name(), I::NAME, show(s), if bytewise { "byte-wise" } else { "at once" }),
+                                        {
+                                            let mut v = replay_value::<I>(s, offset, scanner, b, bytewise, true);
+                                            v["property"] = json!("C14");
+                                            v["subject"] = json!("digit scanners");
+                                            v
+                                        },
+                                        (s.len() * 64 + b) as u64,
+                                    );
+                                }
+                            }
+                        }
+                    }
+                }
+            },
+            |a, b| a.merge(b),
+        );
+        report.merge(total);
+    }
+    let alpha = [b'-', b'0', b'1', b'9', b'x'];
+    let max_len = tier.pick(5, 6);
+    let mut strings: Vec<Vec<u8>> = Vec::new();
+    for n in 1..=max_len {
+        for mut i in 0..alpha.len().pow(n as u32) {
+            let mut s = Vec::new();
+            for _ in 0..n {
+                s.push(alpha[i % 5]);
+                i /= 5;
+            }
+            strings.push(s);
+        }
+    }
+    // long digit runs that end at the end of the input (7 / 8 / 9 / 15 / 16 / 17 characters)
+    for n in [7usize, 8, 9, 15, 16, 17] {
+        strings.push(b"123456789012345678"[..n].to_vec());
+        let mut m = b"-".to_vec();
+        m.extend_from_slice(&b"123456789012345678"[..n - 1]);
+        strings.push(m);
+    }
+    go::<i32>(&strings, report);
+    go::<u64>(&strings, report);
+    go::<i8>(&strings, report);
+    report.completed.push(format!("digit scanners with stale digits behind the buffered window: {} strings x offsets x 1..=8 bytes buffered x {{at once, byte-wise}} x 4 scanners x {{i32, u64, i8}}", strings.len()));
 }
 
 fn s_family<I: ScanInt>(tier: Tier, budget: &Budget, report: &mut Report) {
@@ -666,9 +787,9 @@ pub fn run(tier: Tier, report: &mut Report) {
     report.sample(json!({"family": "S", "call": "signed_ascii_digits::<u8>(\"-x\", 0), nothing buffered", "expected": "(Some(0), 0): a lone '-' is not consumed"}));
 }
 
-fn dispatch_case(ty: &str, s: &[u8], offset: usize, scanner: Scanner, buffered: usize, bytewise: bool) -> Vec<(String, String)> {
+fn dispatch_case(ty: &str, s: &[u8], offset: usize, scanner: Scanner, buffered: usize, bytewise: bool, stale: bool) -> Vec<(String, String)> {
     macro_rules! go {
-        ($($t:ty),*) => {$( if ty == stringify!($t) { return run_case::<$t>(s, offset, scanner, buffered, bytewise); } )*};
+        ($($t:ty),*) => {$( if ty == stringify!($t) { return run_case_in::<$t>(s, offset, scanner, buffered, bytewise, stale); } )*};
     }
     go!(i8, i16, i32, i64, i128, isize, u8, u16, u32, u64, u128, usize);
     panic!("unknown type {ty}");
@@ -679,10 +800,11 @@ pub fn replay(v: &Value) -> (bool, String) {
         let t = unhex(v["input_hex"].as_str().unwrap());
         let offset: usize = v["offset"].as_str().unwrap().parse().unwrap();
         let consumed = v["consumed"].as_u64().unwrap() as usize;
+        let at_end = v["at_end"].as_bool().unwrap_or(false);
         let scanner = Scanner::from_name(v["scanner"].as_str().unwrap());
         let res = catch(|| {
             let mut reader = DeferredReader::from_read(&t[..]);
-            reader.request(t.len());
+            reader.request(t.len() + at_end as usize);
             let c = consumed.min(reader.buf_len());
             reader.advance(c);
             scanner.call::<i64>(&mut reader, offset).1
@@ -696,8 +818,9 @@ pub fn replay(v: &Value) -> (bool, String) {
     let offset = v["offset"].as_u64().unwrap() as usize;
     let buffered = v["buffered"].as_u64().unwrap() as usize;
     let bytewise = v["rest_bytewise"].as_bool().unwrap_or(false);
-    let p1 = dispatch_case(ty, &s, offset, scanner, buffered, bytewise);
-    let p2 = dispatch_case(ty, &s, offset, scanner, buffered, bytewise);
+    let stale = v["stale"].as_bool().unwrap_or(false);
+    let p1 = dispatch_case(ty, &s, offset, scanner, buffered, bytewise, stale);
+    let p2 = dispatch_case(ty, &s, offset, scanner, buffered, bytewise, stale);
     let mut text = format!("{}::<{ty}>({:?}, offset {offset}), {buffered} bytes buffered, rest {}\n  reference: {:?}\n", scanner.name(), show(&s), if bytewise { "byte-wise" } else { "at once" }, ref_scan(&s, offset, scanner.signed()));
     if p1 != p2 {
         text.push_str("  NONDETERMINISTIC REPLAY\n");
